@@ -40,8 +40,15 @@ fn elf_flags_to_prot(flags: u32) -> u32 {
     proc_flags
 }
 
-fn round_up_to_page_size(size: u64) -> u64 {
-    (size + 0xfff) & !0xfff
+/// Largest memory size accepted for a single loadable segment (256 MiB).
+const MAX_SEGMENT_MEMSZ: u64 = 1 << 28;
+
+/// Rounds up to the next multiple of the page size; `None` if the size is larger than MAX_SEGMENT_MEMSZ
+fn round_up_to_page_size(size: u64) -> Option<u64> {
+    if size > MAX_SEGMENT_MEMSZ {
+        return None;
+    }
+    Some((size + 0xfff) & !0xfff)
 }
 
 // TODO: System V ABI mentions %rdx should have "a function pointer that the application should register with atexit" at process entry
@@ -188,7 +195,14 @@ impl Axecutor {
                         segment.p_offset,
                     );
 
-                    let memsz = round_up_to_page_size(segment.p_memsz);
+                    let memsz = match round_up_to_page_size(segment.p_memsz) {
+                        Some(memsz) => memsz,
+                        None => {
+                            return Err(AxError::from(
+                                "ELF: Segment memory size is too large".to_string(),
+                            ))
+                        }
+                    };
 
                     if memsz == segment.p_filesz {
                         axecutor.mem_init_area_named(
